@@ -1,3 +1,17 @@
--- Root of the `TorchDataVerif` library: models, proofs and property theorems.
+-- Root of the `TorchDataVerif` library: models, proofs, property theorems and model drivers.
 import TorchDataVerif.Model.Incr
+import TorchDataVerif.Proofs.Incr
+import TorchDataVerif.Props.C07
 import TorchDataVerif.Drv.Incr
+import TorchDataVerif.Model.NodeCore
+import TorchDataVerif.Model.Sampler
+import TorchDataVerif.Proofs.Sampler
+import TorchDataVerif.Props.C15
+import TorchDataVerif.Drv.Sampler
+import TorchDataVerif.Model.Weighted
+import TorchDataVerif.Proofs.Weighted
+import TorchDataVerif.Props.C14
+import TorchDataVerif.Drv.Weighted
+import TorchDataVerif.Model.Loader
+import TorchDataVerif.Props.C13
+import TorchDataVerif.Drv.Loader
